@@ -207,6 +207,15 @@ def run(ck):
         import json
         rec = json.load(open(ck.replay_file))
         h = rec.get("input_hex") or (rec.get("failing_input") or {}).get("input_hex")
+        rq = rec.get("request") or (rec.get("failing_input") or {}).get("request")
+        if h is None and rq and rq.startswith("filt"):
+            want = rec.get("expected_stdout") or (rec.get("failing_input") or {}).get("expected_stdout")
+            got = ck.run([harness], input=rq + "\n").stdout.strip()
+            out = unhx(got.split()[2]) if got.startswith("o ") and len(got.split()) == 3 else None
+            print("request          : %s" % rq)
+            print("tfel-unicode-filt : %r" % (out if out is not None else got))
+            print("expected stdout  : %s" % want)
+            return 0 if repr(out) == want else 1
         if h is None:
             print("replay file has no recorded input string; table findings are replayed by the dump itself:")
             print(table_defects(table)[:5])
@@ -310,6 +319,56 @@ def run(ck):
             disagreements += 1
             report("corr:tfel-unicode-filt-direct", "correspondence broken: model and tfel-unicode-filt differ on %r" % s, dict(rep, site=FILT), False)
 
+    # --- the tool's own main(): command-line arguments and standard input (implementation only, judged by the
+    # property's predicate: each argument / each input line is answered by one output line holding the original)
+    main_lines, main_want, main_desc = [], [], []
+
+    def add_args(args):
+        main_lines.append("filtargs " + " ".join(hx(a) for a in args))
+        main_want.append(b"".join(oracle.demangle(a) + b"\n" for a in args))
+        main_desc.append(("arguments", args))
+
+    def add_stdin(data):
+        main_lines.append("filtstdin " + hx(data))
+        ls = data.split(b"\n")
+        if ls and ls[-1] == b"":
+            ls.pop()
+        main_want.append(b"".join(oracle.demangle(l) + b"\n" for l in ls))
+        main_desc.append(("stdin", data))
+
+    pool = [m for m in mangled if m is not None and b"\0" not in m and b"\n" not in m]
+    for m in pool[:40] + [b"", b" ", b"a b", b"\t" + (pool[1] if len(pool) > 1 else b"x") + b"  " + (pool[2] if len(pool) > 2 else b"y")]:
+        add_args([m])
+        add_stdin(m)
+        add_stdin(m + b"\n")
+    for _ in range(250 if ck.quick else 2500):
+        k = rng.choice([1, 2, 2, 3, 5])
+        args = [rng.choice(pool) for _ in range(k)]
+        add_args(args)
+        doc = b"\n".join(rng.choice(pool) if rng.random() < 0.9 else b"" for _ in range(rng.choice([1, 2, 3, 6])))
+        add_stdin(doc + rng.choice([b"", b"\n", b"\n\n"]))
+    for d in (b"", b"\n", b"\n\n", b"a", b"a\n", b"a\nb", b"a\n\nb\n", b" a  b \n", b"\ta\n"):
+        add_stdin(d)
+    pim = ck.run([harness], input="".join(l + "\n" for l in main_lines), timeout=1800)
+    main_impl = pim.stdout.splitlines()
+    if pim.returncode != 0:
+        ck.violation("harness-crash-main", "the implementation harness aborted while running tfel-unicode-filt's main()",
+                     {"stderr": pim.stderr[-3000:]}, False)
+    main_bad = 0
+    for i, (line, want) in enumerate(zip(main_lines, main_want)):
+        a = main_impl[i] if i < len(main_impl) else "missing"
+        if a == "o 0 " + hx(want):
+            continue
+        main_bad += 1
+        disagreements += 1
+        kind, inp = main_desc[i]
+        got = unhx(a.split()[2]) if a.startswith("o ") and len(a.split()) == 3 else None
+        report("tfel-unicode-filt:main:" + kind,
+               "tfel-unicode-filt run with %s %r writes %r; one line per %s holding its demangled form is %r" % (
+                   kind, inp, got if got is not None else a, "argument" if kind == "arguments" else "input line", want),
+               {"site": FILT, "mode": kind, "input": repr(inp), "request": line, "implementation": a,
+                "stdout": repr(got), "expected_stdout": repr(want)}, True)
+
     for (key, what, det) in tdef:
         # behaviour of the real code on the offending entry
         report(key, what, dict(det, site=SRC + ":getSupportedUnicodeCharactersDescriptions"), True)
@@ -331,7 +390,7 @@ def run(ck):
         "T2: harness/C33/dump.cxx calls the accessor the property names and prints every entry (the entry count is printed and proved equal to the length of the generated list)",
         "M: Model.lean (sequential replace_all loop over the generated table) is tied to getMangledString and to tfel-unicode-filt's process() by differential execution only; replace_all itself is the model of C32",
         "bytes are natural numbers below 256 in the C++; the Lean theorems hold for lists of arbitrary naturals, in particular for every byte string, valid UTF-8 or not; strings containing NUL are not exercised (C strings in the table)",
-        "tfel-unicode-filt is exercised through its process() function (compiled from the tree, std::cout captured), not through the installed binary; one line = one call",
+        "tfel-unicode-filt is exercised through its process() function and through its main() (renamed, compiled from the tree into the harness; argv built by the harness, std::cin/std::cout redirected to string buffers), not through the installed binary",
     ]
     samples = []
     for i in (0, 1, len(strings) // 2, len(strings) - 1):
@@ -344,6 +403,7 @@ def run(ck):
         "exhaustive_domain": "the whole table (%d entries): every entry alone and in ASCII context, every mangled name, %s, every proper prefix/suffix of every entry; table facts proved for all entries by kernel evaluation" % (
             len(table), "7 partners per entry" if ck.quick else "every ordered pair of entries"),
         "table_entries": len(table), "strings": n, "string_statistics": stats,
+        "main_function_runs": len(main_lines), "main_function_disagreements": main_bad,
         "disagreements": disagreements, "table_defects_found_by_python": len(tdef),
         "traces_validated_against_impl": 3 * n,
         "observations": {
